@@ -158,6 +158,47 @@ local vops = {
   canbeintegral = function(a) return tostring(not not bn.canbeintegral(a)) end,
 }
 
+-- aliasing stream: call f(x, y, ...), re-read the operands, observe raw identity of each result with the
+-- operands, then mutate every bint result in place (_inc) and re-read the operands again
+local alias_fns = {
+  tobint = function(x) return bn.tobint(x) end, parse = function(x) return bn.parse(x) end,
+  tobintc = function(x) return bn.tobint(x, true) end, new = function(x) return bn.new(x) end,
+  abs = function(x) return bn.abs(x) end, inc = function(x) return bn.inc(x) end, dec = function(x) return bn.dec(x) end,
+  max = function(x, y) return bn.max(x, y) end, min = function(x, y) return bn.min(x, y) end,
+  add = function(x, y) return x + y end, sub = function(x, y) return x - y end, mul = function(x, y) return x * y end,
+  bnot = function(x) return ~x end, unm = function(x) return -x end,
+  band = function(x, y) return x & y end, bor = function(x, y) return x | y end, bxor = function(x, y) return x ~ y end,
+  shl = function(x, y, n) return x << n end, shr = function(x, y, n) return x >> n end,
+  bwrap = function(x, y, n) return bn.bwrap(x, n) end,
+  brol = function(x, y, n) return bn.brol(x, n) end, bror = function(x, y, n) return bn.bror(x, n) end,
+  udivmod = function(x, y) return bn.udivmod(x, y) end, idivmod = function(x, y) return bn.idivmod(x, y) end,
+  tdivmod = function(x, y) return bn.tdivmod(x, y) end,
+  ipow = function(x, y) return bn.ipow(x, y) end, upowmod = function(x, y, n, m) return bn.upowmod(x, y, m) end,
+  tobase = function(x, y, n) return bn.tobase(x, n) end, tointeger = function(x) return bn.tointeger(x) end,
+  compress = function(x) return bn.compress(x) end,
+}
+local function alias_run(fname, x, y, n, m)
+  local res = table.pack(pcall(alias_fns[fname], x, y, n, m))
+  local parts, flags, scalar = {}, {}, ''
+  if not res[1] then
+    scalar = nil
+    res.n = 1
+    res.err = res[2]
+  end
+  for i=2,res.n do
+    local r = res[i]
+    if bn.isbint(r) then
+      parts[#parts+1] = hex_of_limbs(r)
+      flags[#flags+1] = rawequal(r, x) and 'x' or rawequal(r, y) and 'y' or rawequal(r, m) and 'm' or '-'
+    elseif math.type(r) == 'integer' then scalar = 'i ' .. hex_of_int(r)
+    else scalar = tostring(r) end
+  end
+  local xs, ys = hex_of_limbs(x), hex_of_limbs(y)
+  for i=2,res.n do if bn.isbint(res[i]) then res[i]:_inc() end end
+  return res.err, string.format('R=%s%s X=%s Y=%s A=%s X2=%s Y2=%s', table.concat(parts, '/'), scalar or '', xs, ys,
+    table.concat(flags), hex_of_limbs(x), hex_of_limbs(y))
+end
+
 local function flag3(s)
   if s == 't' then return true elseif s == 'f' then return false end
   return nil
@@ -203,6 +244,13 @@ local function run(w)
     return hex_of_bytes(bn.tobe(limbs_of_hex(w[2]), w[3] == 't'))
   elseif op == 'todecsci' then
     return str(bn.todecsci(limbs_of_hex(w[2]), nil, w[3] == 't'))
+  elseif op == 'alias' then
+    local err, out = alias_run(w[2], limbs_of_hex(w[3]), limbs_of_hex(w[4]), int_of_hex(w[5]), limbs_of_hex(w[6]))
+    if err then
+      local c = classify(err)
+      out = out:gsub('^R=', 'R=' .. c, 1)
+    end
+    return out
   elseif op == 'lua_tonumber' then   -- the VM functions Model3.v models, called directly
     local v = tonumber(bytes_of_hex(w[2]), int_of_hex(w[3]))
     if v == nil then return 'nil' end
